@@ -22,7 +22,7 @@ TECHNIQUE = "grammar-generated expression trees evaluated against a reference in
 RULE = (
     "expression trees of depth 1..3 (thorough: 4) over leaves {Parameter(x,y), Parameter(x,y,z) (vector valued), time-dependent "
     "Parameter, int, float} and operators + - * / ** in both operand orders, evaluated at a scalar point and at an array of "
-    "points (and time); non-trivial = depth >= 2 with a number operand or a time-dependent leaf; distinct by spec hash"
+    "points (and time), and at a run of 3..6 closely spaced times (dt 1e-3 .. one ulp at t up to 1e5) at the same points; non-trivial = depth >= 2 with a number operand or a time-dependent leaf; distinct by spec hash"
 )
 ASSUMPTIONS = [
     "leaf functions are bounded and positive, divisors are positive sub-trees and non-integer powers have positive bases "
@@ -158,6 +158,9 @@ def _case(draw, maxdepth):
         x=[draw(st.floats(-3, 3)) for _ in range(n)], y=[draw(st.floats(-3, 3)) for _ in range(n)],
         z=[draw(st.floats(-1, 2)) for _ in range(n)], t=draw(st.sampled_from([0.0, 0.37, 2.0, 11.5, -1.0, 1.0])),
         t2=draw(st.sampled_from([0.1, 5.0, -2.0, 1])),
+        # a run of closely spaced times at the same points, as a solver produces late in a long simulation (dt=0: adjacent floats)
+        tseq=dict(t0=draw(st.sampled_from([0.0, 1.0, 250.0, 1000.0, 1e5, -3.0])), dt=draw(st.sampled_from([1e-3, 2e-4, 1e-6, 0.0])),
+                  n=draw(st.integers(3, 6))),
     )
     return dict(arity=arity, tree=tree, points=pts, mutate=draw(st.integers(0, 10 ** 6)),
                 solver=draw(st.integers(0, 3)) == 0)
@@ -341,6 +344,25 @@ def check_case(spec):
     value_check(comp, "composite")
     # evaluate again (time-dependent leaves are cached inside composites): same answer
     value_check(comp, "repeat")
+    # ... and at a run of closely spaced times at the same points (no cache clearing in between, as in a simulation)
+    if timed and P.get("tseq"):
+        ts = P["tseq"]
+        seq = [float(ts["t0"])]
+        for _ in range(int(ts["n"]) - 1):
+            seq.append(seq[-1] + ts["dt"] if ts["dt"] else float(np.nextafter(seq[-1], np.inf)))
+        res.label("closely spaced times")
+        args = (x, y) + (() if arity == "2d" else (z,))
+        for t in seq:
+            try:
+                got = comp(*args, t=t)
+            except Exception as exc:  # noqa: BLE001
+                res.fail("C16.sequence_call", f"evaluation at t={t!r} raised {type(exc).__name__}: {exc}")
+                break
+            ok, why = _close(got, ref_eval(tree, x, y, None if arity == "2d" else z, t))
+            if not ok:
+                res.fail("C16.sequence_value", f"evaluation at t={t!r} (one of the closely spaced times {seq[0]!r}..{seq[-1]!r}) differs from pointwise "
+                         f"arithmetic of the operands: {why}")
+                break
 
     # ---- structural equality
     try:
